@@ -1,6 +1,7 @@
 package harness
 
 import (
+	"bytes"
 	"fmt"
 
 	"github.com/kelindar/column"
@@ -41,7 +42,7 @@ func init() {
 			return false, ""
 		})
 
-	registerKF("f17-double-create-same-key", "C12",
+	registerKF("f17-double-create-same-key", "C12,C02",
 		"two creating key operations (InsertKey/UpsertKey/SetKey) for the same absent key inside one transaction (or concurrently) both pass the existence check: two live rows hold the key",
 		func() (bool, string) {
 			c, _ := kfCollection(ColSpec{Name: "pk", Kind: KKey})
@@ -146,6 +147,144 @@ func init() {
 			c.QueryAt(a, func(r column.Row) error { v, _ = r.String("s"); return nil })
 			if v != "hello" {
 				return true, fmt.Sprintf("MergeString(\"hello\") reads back %q after unrelated transactions", v)
+			}
+			return false, ""
+		})
+}
+
+func init() {
+	registerKF("f10-inflight-insert-visible", "C02,C08,C11",
+		"offsets reserved by the inserts of a transaction that has not committed yet are visible to other readers (ghost rows in Range/Count) and to snapshots, because reservations are made in the shared fill-list",
+		func() (bool, string) {
+			c, _ := kfCollection(ColSpec{Name: "v", Kind: KInt})
+			defer c.Close()
+			c.Insert(func(r column.Row) error { r.SetInt("v", 1); return nil })
+			seen, count := 0, 0
+			c.Query(func(txn *column.Txn) error {
+				txn.Insert(func(r column.Row) error { r.SetInt("v", 2); return nil })
+				// another transaction, while this one is still in flight
+				c.Query(func(other *column.Txn) error {
+					seen = other.Count()
+					return nil
+				})
+				count = c.Count()
+				return nil
+			})
+			if seen != 1 || count != 1 {
+				return true, fmt.Sprintf("while an insert is in flight another transaction counts %d rows and Count() is %d; 1 row is committed", seen, count)
+			}
+			return false, ""
+		})
+}
+
+func init() {
+	registerKF("f22-swallowed-insert-failure", "C02,C11,C01",
+		"an insert whose callback fails frees its offset but keeps its insert marker and the stores it buffered; if the transaction body swallows the error and commits, those stores are applied: a ghost row appears, or a later insert of the same transaction reuses the offset and exposes the failed insert's values",
+		func() (bool, string) {
+			c, _ := kfCollection(ColSpec{Name: "v", Kind: KInt})
+			defer c.Close()
+			var off uint32
+			c.Query(func(txn *column.Txn) error {
+				txn.Insert(func(r column.Row) error { r.SetInt("v", 7); return errStep }) // error swallowed
+				off, _ = txn.Insert(func(r column.Row) error { return nil })
+				return nil
+			})
+			var v int
+			var ok bool
+			c.QueryAt(off, func(r column.Row) error { v, ok = r.Int("v"); return nil })
+			if ok || c.Count() != 1 {
+				return true, fmt.Sprintf("txn[insert{v=7}!fail; insert] commit: row %d reads v=%d,%v (want absent), Count()=%d (want 1)", off, v, ok, c.Count())
+			}
+			return false, ""
+		})
+}
+
+func init() {
+	registerKF("f09-rollback-leaks-inserts", "C02,C11",
+		"a transaction with successful inserts that rolled back kept their offsets reserved: ghost rows in Range/Count",
+		func() (bool, string) {
+			c, _ := kfCollection(ColSpec{Name: "v", Kind: KInt})
+			defer c.Close()
+			c.Query(func(txn *column.Txn) error {
+				txn.Insert(func(r column.Row) error { r.SetInt("v", 1); return nil })
+				return errRollback
+			})
+			n := 0
+			c.Query(func(txn *column.Txn) error { n = txn.Count(); return nil })
+			off, _ := c.Insert(func(r column.Row) error { return nil })
+			if n != 0 || c.Count() != 1 || off != 0 {
+				return true, fmt.Sprintf("after rolling back txn[insert]: %d rows visible (want 0); next insert got offset %d (want 0), Count()=%d (want 1)", n, off, c.Count())
+			}
+			return false, ""
+		})
+}
+
+func init() {
+	registerKF("f23-snapshot-empty-fill-panic", "C02,C14,C07",
+		"Snapshot panicked (index out of range on commits[]) on a collection that never committed a row but whose fill-list had been allocated by a failed or rolled-back insert",
+		func() (bool, string) {
+			c, _ := kfCollection(ColSpec{Name: "v", Kind: KInt})
+			defer c.Close()
+			c.Insert(func(r column.Row) error { return errStep })
+			var buf bytes.Buffer
+			if err := c.Snapshot(&buf); err != nil { // panicked before the repair (caught by the registry)
+				return true, "Snapshot: " + err.Error()
+			}
+			return false, ""
+		})
+}
+
+func init() {
+	registerKF("f04-rekey-keeps-old-key", "C12,C02",
+		"re-keying a row (SetKey on a row that has a key) left the old key in the lookup table",
+		func() (bool, string) {
+			c, _ := kfCollection(ColSpec{Name: "pk", Kind: KKey})
+			defer c.Close()
+			c.InsertKey("a", func(r column.Row) error { return nil })
+			c.QueryKey("a", func(r column.Row) error { r.SetKey("b"); return nil })
+			errA := c.QueryKey("a", func(r column.Row) error { return nil })
+			errB := c.QueryKey("b", func(r column.Row) error { return nil })
+			errIns := c.InsertKey("a", func(r column.Row) error { return nil })
+			if errA == nil || errB != nil || errIns != nil {
+				return true, fmt.Sprintf("after re-keying a->b: QueryKey(a) err=%v (want error), QueryKey(b) err=%v (want nil), InsertKey(a) err=%v (want nil)", errA, errB, errIns)
+			}
+			return false, ""
+		})
+}
+
+func init() {
+	registerKF("f02-enum-snapshot-relative", "C07,C03,C02",
+		"columnEnum.Snapshot wrote block-relative offsets: enum values of rows in blocks >= 1 were restored (and index-backfilled) onto block 0",
+		func() (bool, string) {
+			c, s := kfCollection(ColSpec{Name: "e", Kind: KEnum})
+			defer c.Close()
+			var last uint32
+			c.Query(func(txn *column.Txn) error {
+				for i := 0; i < 16390; i++ {
+					last, _ = txn.Insert(func(r column.Row) error {
+						if i >= 16384 {
+							r.SetEnum("e", "hi")
+						}
+						return nil
+					})
+				}
+				return nil
+			})
+			var buf bytes.Buffer
+			if err := c.Snapshot(&buf); err != nil {
+				return true, err.Error()
+			}
+			d := newCollection(s, column.Options{})
+			defer d.Close()
+			if err := d.Restore(&buf); err != nil {
+				return true, err.Error()
+			}
+			var lo, hi string
+			var okLo, okHi bool
+			d.QueryAt(5, func(r column.Row) error { lo, okLo = r.Enum("e"); return nil })
+			d.QueryAt(last, func(r column.Row) error { hi, okHi = r.Enum("e"); return nil })
+			if okLo || !okHi || hi != "hi" {
+				return true, fmt.Sprintf("restored: row 5 reads %q,%v (want absent), row %d reads %q,%v (want \"hi\")", lo, okLo, last, hi, okHi)
 			}
 			return false, ""
 		})
